@@ -534,16 +534,22 @@ theorem loop_exits {p : PState} (hstop : p.stopClosed = true) :
   have hA : ∀ (q : PState) r, q.pc = .armed r → q.stopClosed = true →
       ∃ p', PSt q p' ∧ p'.pc = .absent ∧ p'.token = .free ∧ p'.cpc = q.cpc ∧ p'.stopClosed = true := by
     intro q r hq hs
-    obtain ⟨p', h1, h2⟩ := hX { q with pc := .exiting } rfl hs
+    obtain ⟨p', h1, h2⟩ := hX { q with pc := .exiting, timer := 0 } rfl hs
     exact ⟨p', (pst_one (l := .recvStop) (by simp [Processor.step, hq, hs])).trans h1, h2⟩
+  -- arming
+  have hG : ∀ (q : PState) r, q.pc = .arming r → q.stopClosed = true →
+      ∃ p', PSt q p' ∧ p'.pc = .absent ∧ p'.token = .free ∧ p'.cpc = q.cpc ∧ p'.stopClosed = true := by
+    intro q r hq hs
+    obtain ⟨p', h1, h2⟩ := hA { q with pc := .armed r, timer := q.now + q.timer, armAt := q.now } r rfl hs
+    exact ⟨p', (pst_one (l := .arm) (by simp [Processor.step, hq])).trans h1, h2⟩
   -- polled
   have hL : ∀ (q : PState) r, q.pc = .polled r → q.stopClosed = true →
       ∃ p', PSt q p' ∧ p'.pc = .absent ∧ p'.token = .free ∧ p'.cpc = q.cpc ∧ p'.stopClosed = true := by
     intro q r hq hs
     by_cases hdue : r.time - q.now < halfMs
-    · obtain ⟨p', h1, h2⟩ := hF { q with pc := .firing r } r rfl hs
+    · obtain ⟨p', h1, h2⟩ := hF { q with pc := .firing r, readAt := q.now } r rfl hs
       exact ⟨p', (pst_one (l := .decide) (by simp [Processor.step, hq, hdue])).trans h1, h2⟩
-    · obtain ⟨p', h1, h2⟩ := hA { q with pc := .armed r } r rfl hs
+    · obtain ⟨p', h1, h2⟩ := hG { q with pc := .arming r, timer := r.time - q.now, readAt := q.now } r rfl hs
       exact ⟨p', (pst_one (l := .decide) (by simp [Processor.step, hq, hdue])).trans h1, h2⟩
   have drop : (∃ p', PSt p p' ∧ p'.pc = .absent ∧ p'.token = .free ∧ p'.cpc = p.cpc ∧ p'.stopClosed = true) →
       ∃ p', PSt p p' ∧ p'.pc = .absent ∧ p'.cpc = p.cpc ∧ p'.stopClosed = true := by
@@ -555,6 +561,7 @@ theorem loop_exits {p : PState} (hstop : p.stopClosed = true) :
   | peeked r => exact drop (hP p r hpc hstop)
   | polled r => exact drop (hL p r hpc hstop)
   | armed r => exact drop (hA p r hpc hstop)
+  | arming r => exact drop (hG p r hpc hstop)
   | firing r => exact drop (hF p r hpc hstop)
   | popped r => exact drop (hO p r hpc hstop)
   | running r => exact drop (hR p r hpc hstop)
